@@ -15,9 +15,19 @@ if [ ! -x "$DST/bin/go" ] || [ "$(readlink -f "$DST/VERSION")" != "$SRC/VERSION"
   mv "$DST.tmp" "$DST"
 fi
 python3 $V/mapseed/patch_goroot.py "$SRC" "$DST"
-[ "${1:-}" = "-notest" ] && exit 0
 mkdir -p $V/.cache/go-build-mapseed $V/.work/mapseed
 cd $V
-env -u GOFLAGS GOROOT=$DST GOTOOLCHAIN=local GOPROXY=off GOFLAGS=-mod=mod GOCACHE=$V/.cache/go-build-mapseed \
-  $DST/bin/go build -o $V/.work/mapseed/selftest ./mapseed/selftest
+GOENV=(env -u GOFLAGS GOROOT=$DST GOTOOLCHAIN=local GOPROXY=off GOFLAGS=-mod=mod GOCACHE=$V/.cache/go-build-mapseed)
+# the compiler itself is patched (stack-allocated maps): rebuild pkg/tool/linux_amd64/compile when its source stamp changed
+TOOL=$DST/pkg/tool/linux_amd64/compile
+STAMP=$(sha256sum $DST/src/cmd/compile/internal/walk/builtin.go | cut -d' ' -f1)
+if [ -L "$TOOL" ] || [ "$(cat $DST/pkg/tool/linux_amd64/compile.stamp 2>/dev/null)" != "$STAMP" ]; then
+  # build with the pristine compiler into a scratch file, then swap it in
+  if [ ! -L "$TOOL" ]; then rm -f "$TOOL"; ln -s "$SRC/pkg/tool/linux_amd64/compile" "$TOOL"; fi
+  (cd $DST/src && "${GOENV[@]}" $DST/bin/go build -o $V/.work/mapseed/compile.new cmd/compile) || { echo "mapseed/setup.sh: compiler rebuild failed"; exit 2; }
+  rm -f "$TOOL"; mv $V/.work/mapseed/compile.new "$TOOL"; echo "$STAMP" > $DST/pkg/tool/linux_amd64/compile.stamp
+  echo "mapseed/setup.sh: rebuilt compile tool"
+fi
+[ "${1:-}" = "-notest" ] && exit 0
+"${GOENV[@]}" $DST/bin/go build -o $V/.work/mapseed/selftest ./mapseed/selftest
 $V/.work/mapseed/selftest
